@@ -69,6 +69,7 @@ def plan(tier, seed):
         sc.append(("tree", n, 128, 0, 0))
         sc.append(("cliques", n, 128, 0, 0))
         sc.append(("tail", n, 128, 0, 0))
+        sc.append(("mstar", n, 128, 0, 0))
     for m in ([10000, 100000] + ([1000000] if tier == "thorough" else [])):
         sc.append(("multi", 4, 128, m, 0))
     # odd sizes drawn from the seed
@@ -111,7 +112,7 @@ def check_c15(tier, seed, jobs):
         if "error" in j:
             continue
         key = None
-        if j["shape"] in ("star", "ring+skip2", "tree", "cliques", "tail") and j["n"] in (4000, 16000, 64000, 256000):
+        if j["shape"] in ("star", "ring+skip2", "tree", "cliques", "tail", "mstar") and j["n"] in (4000, 16000, 64000, 256000):
             key = j["shape"]
         elif j["shape"] == "ring" and j.get("chords", 0) == 2 * j["n"] and j["n"] in (4000, 16000, 64000, 256000):
             key = "ring+2N-chords"
@@ -180,6 +181,32 @@ def check_c15(tier, seed, jobs):
     D.write_evidence("C15", tier, seed, "exploration", coverage, time.time() - t0, 0, ["the time-growth bound is lenient (25x over the doubling series) to stay silent under machine noise; the visit/pop/scan counters are exact"])
     print(f"C15 {tier}: held on {len(results)} scaling scenarios (max group {coverage['max_group']} objects, {coverage['max_adoptions']} adoptions), {time.time() - t0:.1f}s")
     return 0
+
+
+def big_shapes(prop, tier, seed, jobs):
+    """C03 for shapes the history simulator cannot hold (hundreds to thousands of
+    members): every member of the orphaned group must be destroyed, exactly once, by the
+    drop of the last outside handle. Returns (scenarios run, first failure or None)."""
+    import concurrent.futures as cf
+    import random
+    rng = random.Random(seed * 7919 + 3)
+    sizes = [300, 1000, 5000] + ([20000, 100000] if tier == "thorough" else [])
+    sc = []
+    for n in sizes:
+        for shape in ("mstar", "star", "ring", "tree", "cliques", "tail", "ring+skip2", "ring+self"):
+            sc.append((shape, n + rng.randrange(0, 17), rng.choice([64, 128, 256]), n if shape == "ring" else 0, 3 if shape == "ring+self" else 0))
+    for n in (60, 150) + ((400,) if tier == "thorough" else ()):
+        sc.append(("clique", n, 128, 0, 0))
+    results = []
+    with cf.ThreadPoolExecutor(max_workers=min(jobs, 8)) as ex:
+        for j in ex.map(lambda s: scale_child(s[0], s[1], s[2], s[3], s[4], seed), sc):
+            results.append(j)
+    for j in results:
+        if "error" in j:
+            return len(results), (j, ("crash", "big-group-teardown-crashed", f"reclaiming a {j['shape']} of {j['n']} objects did not complete: {j['error']}"))
+        if j["destroyed"] != j["n"] or j["double"] != 0:
+            return len(results), (j, ("not-collected", "big-group-not-fully-destroyed", f"{j['shape']} of {j['n']} objects, every handle a recorded adoption inside the group: {j['destroyed']} destroyed ({j['double']} twice) by the drop of the last outside handle"))
+    return len(results), None
 
 
 def check(prop, tier, seed, jobs):
